@@ -325,7 +325,9 @@ func demangleSingleFunction(fn *profile.Function, options []demangle.Option) {
 			}
 		}
 	}
-	fn.Name = name
+	if name != "" {
+		fn.Name = name
+	}
 }
 
 // looksLikeDemangledCPlusPlus is a heuristic to decide if a name is
